@@ -673,6 +673,12 @@ def run_whatshap(
                     )
                     # identical for all samples
                     components[sample] = overall_components
+                # The heuristic returns no superreads at all if there is nothing to phase. The sample
+                # is still a target of this run, so the writer must remove its old phase information
+                for sample in family:
+                    if sample not in superreads:
+                        superreads[sample] = ReadSet()
+                        components[sample] = overall_components
 
                 if read_list:
                     read_list.write(
